@@ -191,7 +191,10 @@ def _run_pipe(case, T, MM):
     def kernel(reference_arr, prediction_arr, ref_idx, eval_metrics):
         i = int(ref_idx) - 1
         if grouped and not 0 <= i < k:
-            return {m: SNum(z3.RealVal(0 if m.name in ("ASSD", "RVD") else 1), "float64") for m in eval_metrics}     # the single-instance group's one instance
+            # the single-instance group's one instance (label k+3: identical one-voxel masks), or - on a broken tree - a pair of labels
+            # that do not overlap at all in these maps (overlap scores 0)
+            same = int(ref_idx) == k + 3 or int(ref_idx) == 1
+            return {m: SNum(z3.RealVal(0 if m.name in ("ASSD", "RVD") else (1 if same else 0)), "float64") for m in eval_metrics}
         assert 0 <= i < k
         return {m: SNum(vals[m.name][i], "float64") for m in eval_metrics}
     IE._evaluate_instance = kernel
